@@ -27,6 +27,18 @@ CHECKS = {
             "+ correspondence: both variants pass the validators against one slot table; direct oracle: rhs and all three schemes "
             "with/without removal agree bit for bit, same index tables and lengths, NameError counted as failure.",
             "Gallina model + verified validator on both variants + differential execution"),
+    "C06": ("Theorems (validated program = x + (f/g)(exp(g dt)-1) / guarded form / Euler per slot for every carrier with field "
+            "laws; the reals satisfy the laws; over R: guarded slot = RL formula iff |g| > delta else Euler, a passed guard excludes "
+            "division by zero, exactness for affine rates; free names of D) + correspondence: Schemes.valid_scheme on the exported "
+            "function, slot modes vs mirror prediction, value of every <d>_linearized vs the extracted evaluation of the Coq "
+            "differentiator D; direct oracle: returned step vs formula from the model's f and g at random points, states at 0, "
+            "affine rates with coefficient at 0 / +-delta(1 -+ 2^-10), five delta values, both scheme names.",
+            "Gallina model (symbolic differentiator, scheme shapes) + verified validator + differential execution"),
+    "C07": ("Theorems (every validated scheme computes the prescribed update per slot; hybrid = generalized on stiff slots and "
+            "Euler elsewhere for every subset; only states matter) + correspondence: Schemes.valid_scheme on hybrid / generalized / "
+            "Euler functions of one generated module; direct oracle: slot-by-slot bit-for-bit comparison for random subsets incl. "
+            "foreign names, random delta, through get_code (add_schemes).",
+            "Gallina model + verified validator on three generated functions + metamorphic execution"),
 }
 
 def main():
